@@ -2,7 +2,7 @@
    contract.  Theorems only. *)
 From MF Require Import Lib.Base Lib.PyDict Model.GrammarTypes Model.Lexer Model.LR Model.Transformer
   Model.SlotDoc Model.SlotCheck Model.Api Proofs.LexFacts Proofs.ParseFacts Proofs.GrammarFacts
-  Proofs.SlotsAll Proofs.C02 Gen.Grammar Gen.Tokens.
+  Proofs.SlotsAll Proofs.C02 Proofs.C13U Proofs.C08U Proofs.C02U_Spec Proofs.C02U_Guard Proofs.C02U_Order Proofs.C02U Gen.Grammar Gen.Tokens.
 From MF Require Props.C19.
 
 (* [U] nothing written in the text is dropped, invented or moved before the
@@ -55,6 +55,68 @@ Theorem C02_block_placement :
            end.
 Proof. exact block_placement. Qed.
 Print Assumptions C02_block_placement.
+
+(* ---- the contract for EVERY text (Proofs/C02U*.v, agent prover-c02: a logical
+   predicate kept by all 48 callbacks, the comments pass and the final conversion) *)
+
+(* [U] unguarded shape: no None anywhere; every key of every dict lower-case;
+   every block dict carries a lower-case string __type__; the result is a block
+   dict or a list of block dicts *)
+Theorem C02_contract_shape :
+  forall ip ic text v, loads ip ic text = Ok v -> contract_shape v.
+Proof. exact loads_contract_shape. Qed.
+Print Assumptions C02_contract_shape.
+
+(* [U] the documented contract in full - __type__ first and one of the block
+   types; keys lower-case without duplicates; under the plural key of a
+   repeatable type a non-empty list of blocks of that type, under a singleton
+   name a block of that type, under a repeatable keyword a non-empty list, CONFIG
+   and key-value blocks dicts with lower-case keys and string values, POINTS /
+   PATTERN lists of number pairs, PROJECTION a list of strings, an ordinary
+   keyword a scalar or a list of scalars - AND the provenance of every leaf:
+   each int / float / boolean / string is derived from one token of the parse
+   tree (which lies in the text where its position says) by the documented
+   conversion, expression strings are built from their tokens by the expression
+   callbacks.  Guard [lexg]: three spellings of key tokens - block openers are
+   spelled like block keywords, CONFIG like config (both hold of every real
+   parse; no text-versus-type lemma for the lexer is available: PARTIAL), and no
+   attribute is spelled like a reserved name, a block name or a plural key
+   (a genuine restriction: [R] below). *)
+Theorem C02_contract_with_provenance_guarded :
+  forall ip ic text v po,
+    parse_text the_grammar the_hook ic text = Ok po -> lexg (po_tree po) = true ->
+    loads ip ic text = Ok v ->
+    contract_from (leaves (po_tree po)) (is_symbolset_root (po_tree po)) v /\
+    Forall (token_at text) (leaves (po_tree po)).
+Proof. exact loads_contract_from_text_guarded. Qed.
+Print Assumptions C02_contract_with_provenance_guarded.
+
+(* [R] without the guard the plural-key clause is false: an attribute spelled
+   LAYERS (not a keyword of the schema vocabulary the property quantifies over)
+   overwrites the list of LAYER blocks: MAP LAYER NAME 'a' END LAYERS 5 END *)
+Theorem C02_attribute_spelled_like_plural_key_refuted :
+  exists text v, loads false false text = Ok v /\ ~ contract_strict v.
+Proof. exact loads_contract_strict_refuted_plural_key_overwritten. Qed.
+Print Assumptions C02_attribute_spelled_like_plural_key_refuted.
+
+(* [U] a keyword given twice keeps its last value; keys stand in the order of
+   their first occurrence (composite() is a fold of dict assignments over the
+   children in source order) *)
+Theorem C02_keyword_given_twice_keeps_last_value :
+  forall ic l kvs st s k,
+    Forall2 (fun d kv => attr_of (fst kv) (snd kv) d /\ plain_key (fst kv)) l kvs ->
+    comp_fold ic l (Ok st) = Ok s ->
+    assoc k (cs_dict s) = match assoc k (rev kvs) with Some v => Some v | None => assoc k (cs_dict st) end.
+Proof. exact attribute_given_twice_keeps_last_value. Qed.
+Print Assumptions C02_keyword_given_twice_keeps_last_value.
+
+Theorem C02_keys_in_first_occurrence_order :
+  forall ic l kvs st s,
+    Forall2 (fun d kv => attr_of (fst kv) (snd kv) d /\ plain_key (fst kv)) l kvs ->
+    comp_fold ic l (Ok st) = Ok s ->
+    keys (cs_dict s) = fold_left add_key (keys kvs) (keys (cs_dict st)).
+Proof. exact attribute_keys_in_first_occurrence_order. Qed.
+Print Assumptions C02_keys_in_first_occurrence_order.
 
 (* [F] the intended structure of every slot of the schema vocabulary (C19's
    product): loads (render g) = intended g, except the known failing slots *)
